@@ -38,20 +38,27 @@ def build(rnd, k):
     inits = {}
     # imports first: host func, memory, table, globals
     host = m.import_func('env', 'note', [I32, I64], [])
+    # names of imported memories/tables/globals are passed to the embedder's resolver verbatim (they are strings, not C
+    # identifiers): use spellings that the identifier mangling would change (double underscores, dots, 'X', UTF-8)
+    imod = lambda: rnd.choice(['env', 'env', 'GOT.mem', 'a__b', 'X', 'h\u00f4te', 'wasi:io/x'])
+    deco = lambda base: rnd.choice(['%s', '__%s', '%s.x', 'X%s', '%s__base', '%s-1', '\u8a08%s', '%s X2E', '_%s_']) % base
     if memk == 'imported':
-        m.imports.append(('env', 'mem', 'memory', (rnd.randint(1, 2), rnd.choice([None, 4]), False)))
+        m.imports.append((imod(), deco('mem'), 'memory', (rnd.randint(1, 2), rnd.choice([None, 4]), False)))
     if tblk == 'imported':
-        m.imports.append(('env', 'tab', 'table', (rnd.randint(8, 20), None)))
+        m.imports.append((imod(), deco('tab'), 'table', (rnd.randint(8, 20), None)))
     imp_globals = []  # (idx, type, mut)
     for i in range(rnd.randint(0, 4)):
         t = rnd.choice(TYPES) if i else I32
         mut = rnd.random() < 0.4 and i > 0
-        nm = 'ig%d' % i
-        m.imports.append(('env', nm, 'global', (t, mut)))
+        nm = deco('ig%d' % i)
+        gmod = imod()
+        m.imports.append((gmod, nm, 'global', (t, mut)))
         v = nonnan(rnd, t)
         if i == 0:
             v = rnd.randint(0, 40)  # usable as a segment offset
-        inits[('env', nm)] = v
+        inits[(gmod, nm)] = v
+        if i == 0:
+            ig0_key = (gmod, nm)
         imp_globals.append((len(imp_globals), t, mut))
     if memk == 'defined':
         m.mems.append((rnd.randint(1, 3), rnd.choice([None, 3, 8]), False))
@@ -141,7 +148,7 @@ def build(rnd, k):
     if tblk != 'none':
         for i in range(rnd.randint(0, 4)):
             n = rnd.randint(0, 5)
-            if imm_imports and rnd.random() < 0.4 and inits[('env', 'ig0')] + n <= tsize:
+            if imm_imports and rnd.random() < 0.4 and inits[ig0_key] + n <= tsize:
                 off = [('global.get', 0)]
             else:
                 off = [('i32.const', rnd.randint(0, tsize - n))]
